@@ -6,5 +6,5 @@ before=$(ls /verif/seeded | grep "^$ID-" | sort -t- -k2 -n | tail -1)
 /verif/tools/import_seeds.sh "$WT" "$ID" 2>&1 | grep -E "confirmed|CONFIRMED" 
 for d in $(ls /verif/seeded | grep "^$ID-" | sort -t- -k2 -n); do
   n=${d#*-}; b=${before#*-}
-  if [ "$n" -gt "${b:-0}" ]; then /verif/tools/seedrun.sh "$d" | tee -a /verif/tools/arrival_r9.log; fi
+  if [ "$n" -gt "${b:-0}" ]; then /verif/tools/seedrun.sh "$d" | tee -a /verif/tools/arrival_r10.log; fi
 done
